@@ -144,6 +144,8 @@ pub const ALL_KINDS: &[&str] = &[
     "var-annot",
     "ret-annot-implicit",
     "ret-annot-explicit",
+    "ret-in-block",
+    "ret-in-if",
     "ret-enclosing",
     "field-init",
     "field-assign",
@@ -160,7 +162,7 @@ pub fn family_of(kind: &str) -> &'static str {
     match kind {
         "op-add" | "op-sub" | "op-mul" | "op-div" | "op-eq" | "op-cmp" | "op-not" | "op-and-or" | "neg-non-number" | "tuple-op" => "operator",
         "call-too-few" | "call-too-many" | "call-arg-type" => "call",
-        "param-annot" | "var-annot" | "ret-annot-implicit" | "ret-annot-explicit" | "ret-enclosing" | "field-init" | "field-assign"
+        "param-annot" | "var-annot" | "ret-annot-implicit" | "ret-annot-explicit" | "ret-in-block" | "ret-in-if" | "ret-enclosing" | "field-init" | "field-assign"
         | "assign" => "declared-type",
         "if-cond" | "elif-cond" | "loop-cond" | "cond-literal" => "condition",
         "list-hetero" => "list",
@@ -390,12 +392,8 @@ pub fn make(kind: &'static str, want: Option<&Ty>, env: &Env, s: &mut Sel) -> Op
             let kw = if env.pure_ { "pu" } else { *s.pick(&["fn", "pu"]) };
             if s.chance(1, 2) || !env.stmts {
                 // immediately applied literal
-                Some(plant(
-                    kind,
-                    format!("({} zqp: {} do end)({})", kw, a.name(), b.lit(k)),
-                    format!("({} zqp: {} do end)({})", kw, a.name(), a.lit(k)),
-                    Form::Expr(None),
-                ))
+                let f = |v: &str| format!("({} zqp: {} -> {} do zqp end)({})", kw, a.name(), a.name(), v);
+                Some(plant(kind, f(b.lit(k)), f(a.lit(k)), Form::Expr(None)))
             } else {
                 let head = format!("zq1 :: {} zqp: {} do\nend", kw, a.name());
                 Some(plant(kind, format!("{}\nzq1({})", head, b.lit(k)), format!("{}\nzq1({})", head, a.lit(k)), Form::Stmt))
@@ -433,15 +431,38 @@ pub fn make(kind: &'static str, want: Option<&Ty>, env: &Env, s: &mut Sel) -> Op
                 }
             };
             if env.stmts && s.chance(2, 3) {
-                if kind == "ret-annot-explicit" && s.chance(1, 2) {
-                    // early return of the wrong type, correct implicit value
-                    let f = |v: &str| format!("zq1 :: {} -> {} do\nif true do\nret {}\nend\n{}\nend", kw, a.name(), v, a.lit(k + 1));
-                    return Some(plant(kind, f(b.lit(k)), f(a.lit(k)), Form::Stmt));
-                }
                 Some(plant(kind, format!("zq1 :: {}", body(b.lit(k))), format!("zq1 :: {}", body(a.lit(k))), Form::Stmt))
             } else {
                 Some(plant(kind, format!("({})", body(b.lit(k))), format!("({})", body(a.lit(k))), Form::Expr(None)))
             }
+        }
+        "ret-in-block" | "ret-in-if" => {
+            // a `ret` of the wrong type nested in a block of a planted function with an annotated return type
+            if want.is_some() || !env.stmts {
+                return None;
+            }
+            let a = *s.pick(&PRIMS);
+            let b = a.other(s);
+            let kw = if env.pure_ { "pu" } else { *s.pick(&["fn", "pu"]) };
+            let v = s.below(3);
+            let f = |x: &str| -> String {
+                let inner = if kind == "ret-in-if" {
+                    // an `if` without `else`
+                    match v {
+                        0 => format!("if true do\nret {}\nend", x),
+                        1 => format!("if false do\nzq2 :: 1\nelif true do\nret {}\nend", x),
+                        _ => format!("if true do\nloop true do\nret {}\nend\nend", x),
+                    }
+                } else {
+                    match v {
+                        0 => format!("if true do\nret {}\nelse\nret {}\nend", x, a.lit(k + 2)),
+                        1 => format!("loop true do\nret {}\nend", x),
+                        _ => format!("do\nret {}\nend", x),
+                    }
+                };
+                format!("zq1 :: {} -> {} do\n{}\n{}\nend", kw, a.name(), inner, a.lit(k + 1))
+            };
+            Some(plant(kind, f(b.lit(k)), f(a.lit(k)), Form::Stmt))
         }
         "ret-enclosing" => {
             if want.is_some() || !env.stmts {
@@ -617,6 +638,15 @@ pub fn wrap(w: &str, e: &str, pure_: bool) -> String {
         "list-element" => format!("zq9 :: [{}]", e),
         "print-arg" => format!("print({})", e),
         "closure-unused" => format!("zq9 :: {} do\n{}\nend", if pure_ { "pu" } else { "fn" }, e),
+        _ => e.to_string(),
+    }
+}
+
+/// expression-only wrappers (global initialisers)
+pub fn wrap_expr(w: &str, e: &str) -> String {
+    match w {
+        "tuple-element" => format!("({}, 1)", e),
+        "list-element" => format!("[{}]", e),
         _ => e.to_string(),
     }
 }
